@@ -26,6 +26,17 @@ Fault script: {frame index relative to air.script_base: fault} or callable(rel_i
     "s" stale: replaced by the most recent different frame sent in the same direction (a replayed frame)
 `air.arm()` sets script_base to the current frame count (e.g. after activation).
 
+Optional timing model (off by default, nothing changes for callers that do not ask for it):
+    Air(honour_deadline=True)  a frame whose transmission *starts* after the receiver's deadline is not heard
+                               (Frame.late), the receiver gets its TimeoutError first, as with a real receiver
+    Air(rx_latency=s | {"I": s, "T": s})  host latency: the receiving side's clock reads s seconds more when the
+                               received frame is handed to the caller (driver / USB latency after the end of the frame)
+    air.think(air.T, seconds)  the side spends time outside exchange(): it yields like a waiting side, is woken at
+                               the end of the time and does not hear frames meanwhile (the peer's time-outs fire at
+                               their own virtual time, as in a discrete-event simulation)
+`party.last` (air.I.last / air.T.last) names the last thing the endpoint's exchange did: "frame", "send-only",
+or the name of the exception it raised.
+
 Verdict helpers never use wall-clock time: `AirOverrun` (frame bound exceeded) is logical non-progress;
 `AirStall` (a real-time wait on the baton expired) means the machinery is stuck -> inconclusive.
 Both derive from BaseException so that no `except Exception` in the code under observation can swallow them.
@@ -161,13 +172,14 @@ class Parsed(object):
 
 
 class Frame(object):
-    __slots__ = ("n", "dir", "data", "brty", "t", "fault", "rx", "heard", "p")
+    __slots__ = ("n", "dir", "data", "brty", "t", "fault", "rx", "heard", "p", "late")
 
     def __init__(self, n, dir, data, brty, t):
         self.n, self.dir, self.data, self.brty, self.t = n, dir, bytes(data), brty, t
         self.fault = "d"
         self.rx = None          # bytes the receiver got (None: nothing / TransmissionError)
         self.heard = False      # a receiver was waiting when the frame was on the air
+        self.late = False       # honour_deadline: the frame started after the receiver's deadline (not heard)
         self.p = Parsed(self.data, brty)
 
     def __repr__(self):
@@ -185,11 +197,13 @@ class _Party(object):
         self.result = None            # ("frame", bytes) | ("exc", exception)
         self.error = None             # exception that ended the thread's main function
         self.thread = None
+        self.last = None              # "frame" | "send-only" | exception class name (last exchange of this end)
+        self.thinking = False         # parked by Air.think(): not listening, woken (not timed out) at its deadline
 
 
 class Air(object):
     def __init__(self, mode="active", script=None, clock=None, max_frames=2000, stall_s=30.0, airtime=True,
-                 brty="106A"):
+                 brty="106A", honour_deadline=False, rx_latency=None):
         """mode: 'active' (sense answers an atr_req target), 'passive-A', 'passive-F' (sense reports the listening
         target at 106A / 212F+424F), brty: bit rate the air starts with (set by sense / by the harness)"""
         assert mode in ("active", "passive-A", "passive-F")
@@ -212,6 +226,9 @@ class Air(object):
         self._pending_brty = None
         self.rf_off_when_initiator_done = False
         self.unheard = 0
+        self.honour_deadline = honour_deadline
+        self.rx_latency = rx_latency
+        self.late = 0
         self._ticks = 0
         self._seen_ticks = -1
 
@@ -299,7 +316,9 @@ class Air(object):
             else:
                 if nxt.deadline > self.clock.now:
                     self.clock.now = nxt.deadline
-                if nxt is self.T and self.rf_off_when_initiator_done and self.I.state == "done":
+                if nxt.thinking:
+                    nxt.result = ("wake", None)
+                elif nxt is self.T and self.rf_off_when_initiator_done and self.I.state == "done":
                     nxt.result = ("exc", nfc.clf.BrokenLinkError("air: rf off"))
                 else:
                     nxt.result = ("exc", nfc.clf.TimeoutError("air: timeout"))
@@ -320,6 +339,8 @@ class Air(object):
             me.deadline = None
             if kind == "exc":
                 raise val
+            if kind == "wake":
+                return None
             return bytearray(val)
 
     # -- the medium ----------------------------------------------------------------------------
@@ -345,7 +366,11 @@ class Air(object):
         if isinstance(fault, list):
             fault = tuple(fault)
         fr.fault = fault
-        fr.heard = rcv.state == "wait" and rcv.result is None
+        fr.heard = rcv.state == "wait" and rcv.result is None and not rcv.thinking
+        if fr.heard and self.honour_deadline and rcv.deadline is not None and fr.t > rcv.deadline:
+            fr.heard = False                # the receiver's time-out comes first (dispatcher delivers it)
+            fr.late = True
+            self.late += 1
         if not fr.heard:
             self.unheard += 1
         if fr.heard and fault != "l":
@@ -382,6 +407,23 @@ class Air(object):
             ob(fr)
         return fr
 
+    def think(self, me, seconds):
+        """the side `me` (air.I / air.T, called from its own thread) spends `seconds` outside exchange()"""
+        if me.state != "run":
+            raise RuntimeError("air: %s thinks in a thread that does not hold the baton" % me.name)
+        if self.aborted:
+            raise AirOverrun(self.aborted)
+        if seconds <= 0:
+            return
+        me.deadline = self.clock.now + seconds
+        me.result = None
+        me.thinking = True
+        me.state = "wait"
+        try:
+            self._dispatch(me)
+        finally:
+            me.thinking = False
+
     def _exchange(self, me, data, timeout, wait=True):
         if me.state != "run":
             raise RuntimeError("air: %s endpoint used by a thread that does not hold the baton" % me.name)
@@ -390,11 +432,23 @@ class Air(object):
         elif self.aborted:
             raise AirOverrun(self.aborted)
         if not wait:
+            me.last = "send-only"
             return None
         me.deadline = None if timeout is None else self.clock.now + max(0.0, timeout)
         me.result = None
         me.state = "wait"
-        return self._dispatch(me)
+        try:
+            rx = self._dispatch(me)
+        except BaseException as e:
+            me.last = type(e).__name__
+            raise
+        me.last = "frame"
+        lat = self.rx_latency
+        if lat:
+            lat = lat.get(me.name, 0) if isinstance(lat, dict) else lat
+            if lat > 0:
+                self.clock.now += lat
+        return rx
 
 
 # ------------------------------------------------------------------------------------------------
